@@ -38,6 +38,9 @@ type Store struct {
 	Calls   int
 	Log     []Query
 	static  interpreter.StaticStore
+	// zero is the one number this store answers with for every pair it has no entry for (Exact mode):
+	// a store is free to share it between answers, and to hand out its own numbers
+	zero *big.Int
 	// Yield, if set, is called at the beginning of every store call (scheduling point for C11).
 	Yield func()
 }
@@ -81,6 +84,9 @@ func New(mode Mode, bal Bal, meta Meta) *Store {
 	return s
 }
 
+// ZeroIntact reports whether the shared number this store answers absent pairs with is still zero.
+func (s *Store) ZeroIntact() bool { return s.zero == nil || s.zero.Sign() == 0 }
+
 // StaticMaps: the very maps the bundled StaticStore hands out (nil, nil in the other modes).
 func (s *Store) StaticMaps() (interpreter.Balances, interpreter.AccountsMetadata) {
 	if s.Mode != Static {
@@ -116,9 +122,12 @@ func (s *Store) GetBalances(ctx context.Context, q interpreter.BalanceQuery) (in
 		for acct, assets := range q {
 			out[acct] = interpreter.AccountBalance{}
 			for _, a := range assets {
-				v := new(big.Int)
+				if s.zero == nil {
+					s.zero = new(big.Int)
+				}
+				v := s.zero
 				if b, ok := s.Bal[acct][a]; ok {
-					v.Set(b)
+					v = b // the store's own number, not a copy
 				}
 				out[acct][a] = v
 			}
@@ -130,7 +139,7 @@ func (s *Store) GetBalances(ctx context.Context, q interpreter.BalanceQuery) (in
 					if out[acct] == nil {
 						out[acct] = interpreter.AccountBalance{}
 					}
-					out[acct][a] = new(big.Int).Set(b)
+					out[acct][a] = b
 				}
 			}
 		}
@@ -138,7 +147,7 @@ func (s *Store) GetBalances(ctx context.Context, q interpreter.BalanceQuery) (in
 		for acct, m := range s.Bal {
 			out[acct] = interpreter.AccountBalance{}
 			for a, b := range m {
-				out[acct][a] = new(big.Int).Set(b)
+				out[acct][a] = b
 			}
 		}
 	case Static:
